@@ -125,4 +125,33 @@ var mslKnownDefects = mslDefects{
 	// does not compile.
 	"swizzle of a binary expression, same size": {"*": "mismatch: buffer [0 0] word 0"},
 	"swizzle of a binary expression, widening":  {"*": "operator * cannot be applied to float2 and float4"},
+	// M10 (corpus: atomicCompareExchange.wgsl under ReadZeroSkipWrite): the bounds check is written inside
+	// the operand of '&': "f(&uint(_e20) < 128 ? arr.inner[_e20] : DefaultConstructible(), ...)".
+	//
+	// M11: a component of a constant matrix whose column is a splat is written "0.0[0]": the column
+	// "vec4(2.0)" is emitted as the scalar "2.0" and then indexed.
+	"component of a constant matrix built from splats": {"*": "cannot index a value of type float"},
+	// M12: "(*p) %= x" on an integer pointee is written "p = metal::fmod(p, x)": metal::fmod has
+	// floating-point overloads only; with int arguments the call is ambiguous (float / half).
+	"integer remainder assignment through a pointer": {"*": "metal::fmod(int, int) is ambiguous"},
+	// M13: a constant-folded matrix + matrix is declared and constructed as a vector:
+	// "metal::float2 v = metal::float2(2.875, 0.625, -1.0, 0.0);"
+	"constant-folded matrix sum": {"*": "the arguments supply 4 components, the vector has 2"},
+	// M14: a negated literal inside the struct initializer of a private variable is emitted as "{}":
+	// "S pv = S {7u, {}, type_1 {1u, 2u}};" (pv.b reads 0 instead of -1).
+	"negative literal in a private struct initializer": {"*": "mismatch: buffer [0 0] word 0"},
+	// M15: the wrapping add "as_type<metal::uint3>(loc.v)" is applied directly to a packed_int3 member of
+	// a by-value struct: as_type between a 12-byte and a 16-byte type is an error (MSL: "as_type ... of a
+	// different number of bytes").
+	"wrapping add on a vec3 member of a local struct": {"*": "as_type<uint3>(packed_int3)"},
+	// M16: firstLeadingBit(u32) uses the signed formula's test "x == 0 || x == -1": for 0xFFFFFFFF the
+	// result is 0xFFFFFFFF instead of 31.
+	"firstLeadingBit of an unsigned all-ones value": {"*": "mismatch: buffer [0 0] word 0"},
+	// F1 (front end, visible in every backend): a member of a constant struct value that holds a vector
+	// is evaluated with a flattened component index: k.c reads 127 (v.y) instead of 0x80000000.
+	"member of a constant struct that holds a vector": {"*": "mismatch: buffer [0 0] word 0"},
+	// M17: the initializer of a private variable that converts a vector, vec2<bool>(vec2<i32>(1, 0)), is
+	// emitted with the types shuffled: "metal::bool2 pv = metal::float2(uint(1u, 0u));" - a scalar
+	// constructed from two values.
+	"private initializer with a vector conversion": {"*": "a scalar is initialised from exactly one expression"},
 }
